@@ -122,7 +122,7 @@ CHECKS = {
         level_text="Real server handlers run in-process on harness-owned limiter channels of small capacity; sessions read files larger than every queue so that a read stays in progress until the harness drains it. After every generated step the number of files open must never exceed the limit, must equal the model's value at quiescence, tokens held must equal reads in progress, cancelled sessions must neither keep nor free a slot, and in the end every slot must be usable again.",
         level_note="'In progress' is observed as 'file open by the process'. Schedules are sampled, not enumerated; with the verif tag a deterministic placement of the cancellation between limiter wait and acquisition is added in the thorough tier.",
         tests=[
-            dict(name="TestC13History", quick=dict(checks=200, shards=6, timeout=900), thorough=dict(checks=800, shards=12, timeout=3400)),
+            dict(name="TestC13History", quick=dict(checks=150, shards=6, timeout=900), thorough=dict(checks=800, shards=12, timeout=3400)),
         ]),
     "C07": dict(
         pkg="c07", level="exploration", bins=["dcat", "dgrep"], helpers=["vserver"],
